@@ -21,9 +21,11 @@ var table = map[string]func(*fw.Ctx){
 	"C11": checks.C11,
 	"C12": checks.C12,
 	"C13": checks.C13,
+	"C14": checks.C14,
 	"C16": checks.C16,
 	"C17": checks.C17,
 	"C18": checks.C18,
+	"C19": checks.C19,
 }
 
 func main() {
